@@ -119,6 +119,12 @@ pub fn generate(g: &mut Gen, thorough: bool) {
                     };
                     [enc(&mut g.rng, 89), enc(&mut g.rng, 179), 0.0, 0.0]
                 })
+                // angles with zero degrees, of either sign: the sign lives in the minutes or seconds only
+                .chain(if def == "dm" {
+                    vec![[-30.5, -0.75, 0.0, 0.0], [30.5, 0.75, 0.0, 0.0], [-59.999, 59.999, 0.0, 0.0], [-0.001, -100.0, 0.0, 0.0]]
+                } else {
+                    vec![[-3030.25, -45.5, 0.0, 0.0], [3030.25, 45.5, 0.0, 0.0], [-5959.999, 0.001, 0.0, 0.0], [-100.0, -10000.0, 0.0, 0.0]]
+                })
                 .collect()
         } else {
             (0..8).map(|_| [g.rng.uniform(-300.0, 300.0), g.rng.uniform(-300.0, 300.0), g.rng.uniform(-300.0, 300.0), g.rng.uniform(-300.0, 300.0)]).collect()
